@@ -115,6 +115,14 @@ fn case_run(src: &mut Src, st: &mut Stats, _env: &Env) -> CaseResult {
         }
     };
     let _ = input_is_json;
+    // sometimes a blank-like character that the grammar does not know at an end of the expression
+    let expr = if src.chance(30) {
+        let c = *src.pick(crate::syn::WS_LIKE);
+        let c = if c == '\u{0}' { '\u{a0}' } else { c };
+        if src.flip() { format!("{}{}", expr, c) } else { format!("{}{}", c, expr) }
+    } else {
+        expr
+    };
     let dir = tmp_dir();
     let tid = format!("{:?}", std::thread::current().id()).replace(|c: char| !c.is_ascii_digit(), "");
     let unquoted = src.chance(80);
